@@ -13,6 +13,7 @@
 #define IS_REL(k) ((k) == K_LT || (k) == K_LE || (k) == K_EQ || (k) == K_NEQ || (k) == K_GE || (k) == K_GT)
 #define IS_FP_KIND(k) ((k) >= K_FABS_F && (k) <= K_RANDOM_WEIBULL_F)
 #define VW_HYBRID 16
+#define NB(k, w) ((k) == K_CHANNEL && !((w)&4))
 #ifndef KF1_GUARD_CLASS
 #define KF1_GUARD_CLASS 0
 #endif
@@ -24,8 +25,8 @@ void w_c17_walker(int which, int empty, int kind, int tk, unsigned tw, int nsub,
 void w_c17_guard(int empty, int kind, int nsub, int k0, int k1, unsigned g0, unsigned g1, unsigned g2, unsigned g3, int sym, int sto, int con, int* osym, int* osto, int* ocon);
 void w_c17_assign(int kind, int nsub, int root_fp, int root_hyb, unsigned g0, unsigned g1, unsigned g2, unsigned g3, int sym, int sto, int con, int* osym, int* osto, int* ocon);
 void w_c17_location(int empty, int kind, int nsub, unsigned g0, unsigned g1, int k0, int k1, int tk0, int tk1, unsigned clk_w, int v0, int v1, double d0, double d1, int sym, int sto, int con, int* osym, int* osto, int* ocon);
-void w_c17_variable(int tk, unsigned tw, int init_empty, int init_fp, int sym, int sto, int con, int* is_clock_, int* osym, int* osto, int* ocon);
-void w_c17_frame(int n, int k0, unsigned w0, int k1, unsigned w1, int k2, unsigned w2, int sym, int sto, int con, int* osym, int* osto, int* ocon);
+void w_c17_variable(int tk, unsigned tw, int ek, unsigned ew, int init_empty, int init_fp, int sym, int sto, int con, int* is_clock_, int* osym, int* osto, int* ocon);
+void w_c17_frame(int n, int k0, unsigned w0, int ek0, unsigned ew0, int k1, unsigned w1, int k2, unsigned w2, int sym, int sto, int con, int* osym, int* osto, int* ocon);
 void w_c17_ctor(int dyn, int prio, int n, int k0, unsigned w0, int* osym, int* osto, int* ocon, int* accepted);
 int w_c17_template_before(int inst);
 void w_c17_edge(int gkind, int akind, unsigned ga, unsigned gg, int sym, int sto, int con, int* osym, int* osto, int* ocon);
@@ -114,22 +115,27 @@ void h_c17_location(void)
 }
 void h_c17_variable(void)
 {
-    int tk, ie, ifp, sym, sto, con, isclk, osym, osto, ocon; unsigned tw;
-    __CPROVER_assume(VALID_BASE(tk) && tw <= 511 && (ie == 0 || ie == 1) && (ifp == 0 || ifp == 1));
-    w_c17_variable(tk, tw, ie, ifp, sym, sto, con, &isclk, &osym, &osto, &ocon);
-    __CPROVER_assert(!(isclk && !ie && ifp) || !osym, "c17.variable.clock-with-fp-initialiser-clears-symbolic");
-    __CPROVER_assert((isclk && !ie && ifp) || osym == (sym != 0), "c17.variable.other-variables-leave-symbolic");
+    int tk, ek, ie, ifp, sym, sto, con, isclk, osym, osto, ocon; unsigned tw, ew;
+    __CPROVER_assume(VALID_BASE(tk) && tw <= 511 && VALID_BASE(ek) && ek != K_ARRAY && ew <= 511 && (ie == 0 || ie == 1) && (ifp == 0 || ifp == 1));
+    w_c17_variable(tk, tw, ek, ew, ie, ifp, sym, sto, con, &isclk, &osym, &osto, &ocon);
+    /* a clock or an array of clocks (array nesting depth <= 1 in this harness) */
+    _Bool clockish = tk == K_CLOCK || (tk == K_ARRAY && ek == K_CLOCK);
+    _Bool nbchan = NB(tk, tw) || (tk == K_ARRAY && NB(ek, ew));
+    __CPROVER_assert(!(clockish && !ie && ifp) || !osym, "c17.variable.clock-with-fp-initialiser-clears-symbolic");
+    __CPROVER_assert((clockish && !ie && ifp) || osym == (sym != 0), "c17.variable.other-variables-leave-symbolic");
+    __CPROVER_assert(!nbchan || !osto, "c17.variable.non-broadcast-channel-variable-clears-stochastic");
+    __CPROVER_assert(nbchan || osto == (sto != 0), "c17.variable.other-variables-leave-stochastic");
     MONO("c17.variable");
-    __CPROVER_assert(osto == (sto != 0) && ocon == (con != 0), "c17.variable.other-flags-untouched");
+    __CPROVER_assert(ocon == (con != 0), "c17.variable.concrete-untouched");
     REACH;
 }
 void h_c17_frame(void)
 {
-    int n, k0, k1, k2, sym, sto, con, osym, osto, ocon; unsigned w0, w1, w2;
+    int n, k0, ek0, k1, k2, sym, sto, con, osym, osto, ocon; unsigned w0, ew0, w1, w2;
     __CPROVER_assume(n >= 0 && n <= 3 && VALID_BASE(k0) && VALID_BASE(k1) && VALID_BASE(k2) && w0 <= 511 && w1 <= 511 && w2 <= 511);
-    w_c17_frame(n, k0, w0, k1, w1, k2, w2, sym, sto, con, &osym, &osto, &ocon);
-#define NB(k, w) ((k) == K_CHANNEL && !((w)&4))
-    _Bool nonbc = (n > 0 && NB(k0, w0)) || (n > 1 && NB(k1, w1)) || (n > 2 && NB(k2, w2));
+    __CPROVER_assume(VALID_BASE(ek0) && ek0 != K_ARRAY && ew0 <= 511 && k1 != K_ARRAY && k2 != K_ARRAY);
+    w_c17_frame(n, k0, w0, ek0, ew0, k1, w1, k2, w2, sym, sto, con, &osym, &osto, &ocon);
+    _Bool nonbc = (n > 0 && (NB(k0, w0) || (k0 == K_ARRAY && NB(ek0, ew0)))) || (n > 1 && NB(k1, w1)) || (n > 2 && NB(k2, w2));
     __CPROVER_assert(!nonbc || !osto, "c17.frame.non-broadcast-channel-clears-stochastic");
     __CPROVER_assert(nonbc || osto == (sto != 0), "c17.frame.broadcast-only-leaves-stochastic");
     MONO("c17.frame");
